@@ -626,6 +626,7 @@ pub fn run(args: &Args, rep: &mut Report) {
     }
     let mut reported: std::collections::BTreeSet<String> = Default::default();
     for (label, ops, stream) in todo {
+        mark_current(&case_lines(&ops));
         drv.begin_case();
         let mut rng = Rng::new(seed ^ 0x7ace, stream);
         cfg.force_overlap = label.starts_with("corpus:") || label.starts_with("replay:");
